@@ -28,6 +28,12 @@ def run(ctx):
             for _ in range(6):
                 md, t = M.mutate(base, ctx.rng)
                 docs.append(md); meta.append((t, base))
+            # second migration for one ordered pair, inside the coexistence interval
+            for _ in range(3):
+                ov = G.overlap_variant(m, ctx.rng)
+                if ov is not None:
+                    docs.append(G.spell(ov[0], ctx.rng, level=ctx.rng.choice([0, 0.5])))
+                    meta.append(("overlap:" + ("overlapping" if ov[1] else "disjoint"), base))
         reps = model_resolve(ctx, docs)
         graphs, gdocs = [], []
         for d, (t, base), rep in zip(docs, meta, reps):
@@ -43,6 +49,8 @@ def run(ctx):
             code = res["dict"]
             ctx.count(show(canon_doc(d)), t != "parent", tags=[("op:" + t.split("+")[0].split(":")[0]), "accepted" if code[0] == "ok" else "rejected:" + code[1]])
             compare_with_model(ctx, d, code, rep)
+            if t == "overlap:overlapping" and code[0] == "ok":
+                ctx.violation("a document with two migrations for one ordered pair overlapping in time is resolved", {"document": show(canon_doc(d))}, python=py_repro(d, "g.migrations"))
             if t == "parent" and code[0] != "ok":
                 ctx.violation("a valid model is rejected", {"document": show(canon_doc(d))}, python=py_repro(d, "g"))
             # the routes must agree on accept/reject (YAML/JSON refuse nulls that a dict may carry: skip documents with None)
